@@ -159,6 +159,9 @@ func c10Census(c *core.Ctx) (sources []unorderedSource, unorderedFns map[*ssa.Fu
 		if top.Signature.Results().Len() == 0 {
 			continue
 		}
+		if s.kind == "maprange" && readsNeitherKeyNorValue(s.in) {
+			continue // nothing of the map's order can end up in the result
+		}
 		if _, isSl := top.Signature.Results().At(0).Type().Underlying().(*types.Slice); isSl && !sortCalls(top) {
 			unorderedFns[top] = true
 		}
@@ -322,6 +325,35 @@ func sortedCollector(c *core.Ctx, s unorderedSource) (bool, string) {
 	return true, ""
 }
 
+// readsNeitherKeyNorValue: the map range's iterations never look at the key or the value they are given.
+func readsNeitherKeyNorValue(in ssa.Instruction) bool {
+	rng, ok := in.(*ssa.Range)
+	if !ok {
+		return false
+	}
+	for _, rf := range *rng.Referrers() {
+		nx, isNext := rf.(*ssa.Next)
+		if !isNext {
+			continue
+		}
+		for _, r2 := range *nx.Referrers() {
+			ex, isEx := r2.(*ssa.Extract)
+			if !isEx {
+				continue
+			}
+			if ex.Index == 0 {
+				continue // the "there is another entry" flag
+			}
+			for _, r3 := range *ex.Referrers() {
+				if _, isDbg := r3.(*ssa.DebugRef); !isDbg {
+					return false
+				}
+			}
+		}
+	}
+	return true
+}
+
 // onlyLenUses: v is used only as the argument of len.
 func onlyLenUses(v ssa.Value) bool {
 	if v.Referrers() == nil {
@@ -369,6 +401,23 @@ func strictlySorted(c *core.Ctx, call *ssa.Call) (ssa.Value, string) {
 			return nil, "comparator is not `a < b` on its two parameters"
 		}
 		return core.Norm(com.Args[0]), ""
+	case cal.String() == "sort.Slice" || cal.String() == "sort.SliceStable":
+		// an index comparator over the slice it captures: decided by interpretation, like sort.Sort
+		mc, ok := com.Args[1].(*ssa.MakeClosure)
+		mi, ok2 := com.Args[0].(*ssa.MakeInterface)
+		if !ok || !ok2 || len(mc.Bindings) != 1 {
+			return nil, "sort.Slice whose comparator is not a literal over the one slice it sorts"
+		}
+		byRef := false
+		if ld, isLd := mi.X.(*ssa.UnOp); isLd && ld.Op == token.MUL && ld.X == mc.Bindings[0] {
+			byRef = true
+		} else if core.Norm(mi.X) != core.Norm(mc.Bindings[0]) {
+			return nil, "the comparator handed to sort.Slice does not index the slice being sorted"
+		}
+		if ok, why := sortSliceCanonical(c, mc.Fn.(*ssa.Function), mi.X.Type(), byRef); !ok {
+			return nil, why
+		}
+		return core.Norm(mi.X), ""
 	case cal.String() == "sort.Strings" || cal.String() == "sort.Ints":
 		return core.Norm(com.Args[0]), ""
 	case cal.String() == "sort.Sort" || cal.String() == "sort.Stable":
@@ -463,7 +512,7 @@ func sortedBeforeLoop(c *core.Ctx, fn *ssa.Function, rl *core.RangeLoop) (bool, 
 			}
 			continue
 		}
-		if sorted != core.Norm(rl.Slice) {
+		if sorted != core.Norm(rl.Slice) && !sameCellLoad(sorted, core.Norm(rl.Slice), call) {
 			continue
 		}
 		if !core.Dominates(call, rl.Header.Instrs[0]) || rl.Loop.Blocks[call.Block()] {
@@ -558,6 +607,8 @@ func c10(c *core.Ctx, r *core.Report) {
 				}
 			}
 			r.Check(okF, "C10.R1", cons, pos, "SETLIKE: the map is only fanned out, one goroutine per entry, all awaited (WaitGroup protocol)")
+		case s.kind == "maprange" && readsNeitherKeyNorValue(s.in):
+			r.Hold("C10.R1", cons, pos, "EMPTINESS: the range reads neither keys nor values (it only finds out whether there is an entry, or counts them)")
 		case s.key == "maprange@(component_definition.TagArg).ForEach" || (s.kind == "maprange" && sortedCollectorOK(c, s)):
 			// SORTED: keys are collected, sorted, then visited (in place, or by the caller of a key-collecting helper)
 			okSorted, why := sortedCollector(c, s)
@@ -985,6 +1036,115 @@ func diagnosticOnly(c *core.Ctx, v ssa.Value, depth int) bool {
 			}
 		default:
 			return false
+		}
+	}
+	return true
+}
+
+// sortSliceCanonical interprets sort.Slice with the given index comparator (which captures the slice) on every
+// permutation of three distinct elements: the result must not depend on the order they came in.
+func sortSliceCanonical(c *core.Ctx, less *ssa.Function, T types.Type, byRef bool) (bool, string) {
+	key := "sort-slice-canonical:" + less.String()
+	if v, ok := c.Memo.Load(key); ok {
+		return v.(string) == "", v.(string)
+	}
+	why := func() (why string) {
+		sl, ok := T.Underlying().(*types.Slice)
+		if !ok {
+			return "sort.Slice of something that is not a slice"
+		}
+		b, ok := sl.Elem().Underlying().(*types.Basic)
+		if !ok || b.Info()&(types.IsString|types.IsInteger) == 0 {
+			return "sort.Slice of a slice whose elements are neither strings nor integers"
+		}
+		mk := func(i int) absint.Value {
+			if b.Info()&types.IsString != 0 {
+				return absint.Str(string(rune('a' + i)))
+			}
+			return absint.Int(int64(i))
+		}
+		defer func() {
+			if r := recover(); r != nil {
+				switch x := r.(type) {
+				case *absint.Undecided:
+					why = "interpreting the comparator left the model: " + x.Msg
+				case *absint.GoPanic:
+					why = "the comparator panics: " + x.Msg
+				default:
+					panic(r)
+				}
+			}
+		}()
+		canon := ""
+		for _, perm := range [][]int{{0, 1, 2}, {0, 2, 1}, {1, 0, 2}, {1, 2, 0}, {2, 0, 1}, {2, 1, 0}} {
+			t := newTbl(c)
+			ip := absint.New(t)
+			ip.IsLog = core.IsLogCall
+			ip.InScope = c.InScope
+			l := &absint.List{}
+			for _, i := range perm {
+				l.Elems = append(l.Elems, mk(i))
+			}
+			var bound absint.Value = l
+			if byRef {
+				bound = &absint.Cell{V: l}
+			}
+			cl := &absint.Closure{Fn: less, Bind: []absint.Value{bound}}
+			lessAt := func(i, j int) bool {
+				r, ok := ip.CallValue(cl, absint.Int(i), absint.Int(j)).(absint.Bool)
+				if !ok {
+					panic(&absint.Undecided{Msg: "the comparator did not return a boolean"})
+				}
+				return bool(r)
+			}
+			for i := 1; i < len(l.Elems); i++ {
+				for j := i; j > 0 && lessAt(j, j-1); j-- {
+					l.Elems[j], l.Elems[j-1] = l.Elems[j-1], l.Elems[j]
+				}
+			}
+			got := absint.Show(l)
+			if canon != "" && canon != got {
+				return fmt.Sprintf("the comparator leaves the same elements as %s or as %s, depending on the order they came in", canon, got)
+			}
+			canon = got
+		}
+		return ""
+	}()
+	c.Memo.Store(key, why)
+	return why == "", why
+}
+
+// sameCellLoad: a and b are loads of one local variable and nothing is stored into it after the instruction `after`
+// (every store comes before it): both read the value the variable had at `after`.
+func sameCellLoad(a, b ssa.Value, after ssa.Instruction) bool {
+	la, ok1 := a.(*ssa.UnOp)
+	lb, ok2 := b.(*ssa.UnOp)
+	if !ok1 || !ok2 || la.Op != token.MUL || lb.Op != token.MUL || la.X != lb.X {
+		return false
+	}
+	al, ok := la.X.(*ssa.Alloc)
+	if !ok {
+		return false
+	}
+	for _, rf := range *al.Referrers() {
+		switch x := rf.(type) {
+		case *ssa.Store:
+			if x.Addr == ssa.Value(al) && !core.StrictlyBefore(x, after) && (x.Block() == after.Block() || core.BlockReaches(after.Block(), x.Block())) {
+				return false // the store may run after the sort
+			}
+		case *ssa.MakeClosure:
+			// a literal that captures the variable must not write it
+			fn := x.Fn.(*ssa.Function)
+			for i, bnd := range x.Bindings {
+				if bnd != ssa.Value(al) || i >= len(fn.FreeVars) {
+					continue
+				}
+				for _, r2 := range *fn.FreeVars[i].Referrers() {
+					if st, isSt := r2.(*ssa.Store); isSt && st.Addr == ssa.Value(fn.FreeVars[i]) {
+						return false
+					}
+				}
+			}
 		}
 	}
 	return true
